@@ -140,6 +140,8 @@ def aliases : List (String × String) :=
   [("arcsin", "asin"), ("arccos", "acos"), ("arctan", "atan"), ("arcsec", "asec"), ("arccsc", "acsc"),
    ("arccot", "acot"), ("arcsinh", "asinh"), ("arccosh", "acosh"), ("arctanh", "atanh"), ("arcsech", "asech"),
    ("arccoth", "acoth"), ("arccsch", "acsch"), ("ln", "log"),
+   -- the spellings the string printer writes (accepted by the parser since the C16 round-trip fix)
+   ("kroneckerdelta", "kronecker_delta"), ("levicivita", "levi_civita"),
    ("Equality", "Eq"), ("Unequality", "Ne"), ("GreaterThan", "Ge"), ("StrictGreaterThan", "Gt"),
    ("LessThan", "Le"), ("StrictLessThan", "Lt"),
    ("Not", "logical_not"), ("And", "logical_and"), ("Or", "logical_or"), ("Nand", "logical_nand"),
